@@ -83,6 +83,7 @@ type History struct {
 	N0     int      `json:"n0"`     // validators created before the first block
 	H0     int64    `json:"h0"`
 	Legacy *string  `json:"legacy"` // hex blob seeded under the legacy key (nil = none)
+	MaxVal uint32   `json:"maxval"` // staking MaxValidators (0 = 100)
 	Ops    []Op     `json:"ops"`
 }
 
@@ -113,6 +114,7 @@ type world struct {
 	prevUnj map[int]bool
 	minVer  string
 
+	stAtCheck [4]int
 	terms []string
 	lastObs, lastBlob string
 	nJail, nGrace, nRefuse, nProt int
@@ -127,9 +129,13 @@ func newWorld(t *testing.T, h History) *world {
 	in := skywaykeeper.CreateTestEnv(t)
 	w := &world{t: t, in: in, h: h}
 	w.ctx = sdk.UnwrapSDKContext(in.Context).WithLogger(log.NewNopLogger()).WithBlockHeight(h.H0).WithBlockTime(baseTime.Add(time.Second))
+	maxVal := h.MaxVal
+	if maxVal == 0 {
+		maxVal = 100
+	}
 	params := stakingtypes.Params{
-		UnbondingTime:     40 * time.Second,
-		MaxValidators:     100,
+		UnbondingTime:     10 * time.Minute,
+		MaxValidators:     maxVal,
 		MaxEntries:        10,
 		HistoricalEntries: 10,
 		BondDenom:         denom,
@@ -336,6 +342,7 @@ func (w *world) apply(op Op) {
 			if err != nil {
 				w.t.Fatalf("delegate: %v", err)
 			}
+			w.emitEnv() // consensus power changes at once (status only at the staking end-blocker)
 		}
 	case "end":
 		w.endBlock(op)
@@ -415,6 +422,9 @@ func (w *world) endBlock(op Op) {
 			if w.h.Legacy == nil && h-w.since[i] <= 30 {
 				w.violate("C12:grace-jailed", fmt.Sprintf("validator %d jailed for inactivity at height %d, unjailed only since %d", i, h, w.since[i]))
 			}
+		}
+		if check && !preJ[i] && expired {
+			w.stAtCheck[preSt[i]]++
 		}
 		if check && !preJ[i] && (preSt[i] == 2 || preSt[i] == 3) && expired && !j {
 			s, ok := w.since[i]
@@ -523,6 +533,9 @@ func genHistory(r *rand.Rand, search bool) History {
 		h.Tokens = append(h.Tokens, tok)
 	}
 	h.N0 = n
+	if r.Intn(2) == 0 && n >= 3 {
+		h.MaxVal = uint32(2 + r.Intn(n-1)) // some validators are displaced: unbonding / unbonded while unjailed
+	}
 	h0s := []int64{1, 2, 38, 45, 49, 50, 51, 60, 99, 1000, 5000}
 	h.H0 = h0s[r.Intn(len(h0s))]
 	if r.Intn(10) < 3 {
@@ -574,7 +587,7 @@ func genHistory(r *rand.Rand, search bool) History {
 			case x < 62:
 				h.Ops = append(h.Ops, Op{K: "jail", I: pick()})
 			case x < 72:
-				h.Ops = append(h.Ops, Op{K: "delegate", I: pick(), N: int64(1+r.Intn(4)) * 500_000})
+				h.Ops = append(h.Ops, Op{K: "delegate", I: pick(), N: int64(1+r.Intn(6)) * 500_000})
 			case x < 80:
 				h.Ops = append(h.Ops, Op{K: "setmin", Ver: ver()})
 			case x < 86:
@@ -715,6 +728,11 @@ func TestCorr(t *testing.T) {
 		run.Count("inactivity_jailings", fmt.Sprint(min(w.nJail, 5)))
 		run.Count("protected_skips", fmt.Sprint(min(w.nProt, 3)))
 		run.Count("legacy_seed", fmt.Sprint(h.Legacy != nil))
+		for st, c := range w.stAtCheck {
+			for ; c > 0; c-- {
+				run.Count("silent_unjailed_at_check_by_status", []string{"?", "unbonded", "unbonding", "bonded"}[st])
+			}
+		}
 		hasComma := false
 		for _, a := range h.Addrs {
 			if strings.Contains(a, "2c") {
